@@ -558,18 +558,20 @@ Fixpoint avail_upto (l : bytes) (n acc : N) {struct l} : N :=
        end.
 
 (* the piece loop of the repaired composer, on lengths: (left, avail, len, cap, stopped).
-   Every piece is reserved (Grow) before it is read; at most 22 pieces for need < 2^32
+   Room for a piece is made (Grow) before it is read; at most 22 pieces for need < 2^32
    (the piece size doubles from initMsgLen on), 40 iterations are plenty. *)
-Definition piece_step (st : N * N * N * N * bool) : N * N * N * N * bool :=
+Definition piece_step (mlen : N) (st : N * N * N * N * bool) : N * N * N * N * bool :=
   let '(lft, avail, len, cap, stopped) := st in
   if stopped || (lft =? 0) then (lft, avail, len, cap, true)
   else
-    let p := N.min lft (N.max len init_msg_len) in
-    let cap' := grow_cap cap len p in
+    let limit := N.max len init_msg_len in
+    let p := N.min lft limit in
+    (* no room for the piece: grow by what has arrived (at least initMsgLen), never beyond the message *)
+    let cap' := if p <=? cap - len then cap else grow_cap cap len (N.min (mlen - len) limit) in
     if p <=? avail then (lft - p, avail - p, len + p, cap', false)
     else (lft, avail, len, cap', true).
-Definition pieces_cap (need avail len cap : N) : N :=
-  let '(_, _, _, cap', _) := N.iter 40 piece_step (need, avail, len, cap, false) in cap'.
+Definition pieces_cap (mlen need avail len cap : N) : N :=
+  let '(_, _, _, cap', _) := N.iter 40 (piece_step mlen) (need, avail, len, cap, false) in cap'.
 
 Definition mem_get (csid : N) (m : mem) : mentry :=
   match nget csid m with Some e => e | None => mk_me init_msg_len 0 end.   (* NewStream: nazabytes.NewBuffer(initMsgLen) *)
@@ -592,7 +594,7 @@ Definition mem_chunk (rv : rvariant) (cst : cstate) (l : bytes) (m : mem) : mem 
               else
                 let need := needed_size rv (cs_chunk cst) s2 in
                 let avail := avail_upto l3 need 0 in
-                let cap2 := if rv_grow_received rv then pieces_cap need avail len cap1
+                let cap2 := if rv_grow_received rv then pieces_cap (h_len (s_hdr s2)) need avail len cap1
                             else grow_cap cap1 len need in     (* ReserveBytes(neededSize) in one piece *)
                 nset csid (mk_me cap2 (me_got e0 + avail)) m
           | _ => nset csid (mk_me cap1 (me_got e0)) m
